@@ -182,8 +182,72 @@ class IsRefOp(Op):
         return cases
 
 
+class TypeCellOp(Op):
+    """RE_END_CONTROL / RE_BEGIN_CONTROL / RE_SELECT, tried in workbook_to_json's order, against Model/TypeCell.v over the regenerated alias tables"""
+    name = "T.type_cell"
+    imports = ["PX.Gen.Types", "PX.Model.TypeCell"]
+    fn = "fun t => show_kind (classify (map fst CONTROL_ALIASES) (map fst SELECT_ALIASES) t)"
+    in_ty = "list N"
+    n_quick, n_thorough = 800, 8000
+
+    def generate(self, rng, n):
+        from pyxform import aliases
+        from pyxform.xls2json import RE_END_CONTROL, RE_BEGIN_CONTROL, RE_SELECT
+        words = list(aliases.control) + list(aliases.select) + ["begin", "end", "over", "or_other", "or other", "or specify other", "or", "other", "l", "cities.csv", "yn", "x y", "from", "file",
+                                                                  "é", "${q}", "text", "loop"]
+        seps = [" ", "_", "  ", "\t", "\u00a0", "", "\n", " over ", "-"]
+        lists = ["l", "cities.csv", "yn", "é", "${q}", "or_other", "over", "from", "file", "fromage", "x", "a-b", "or"]
+
+        def show(t):
+            m = RE_END_CONTROL.search(t)
+            if m:
+                return "E\x01" + m.group("type")
+            m = RE_BEGIN_CONTROL.search(t)
+            if m:
+                return "B\x01" + m.group("type") + "\x01" + ("L" + m.group("list_name") if m.group("list_name") is not None else "-")
+            m = RE_SELECT.search(t)
+            if m:
+                return "S\x01" + m.group("select_command") + "\x01" + m.group("list_name") + "\x01" + ("1" if m.group("specify_other") else "0")
+            return "O"
+
+        def structured():
+            k = rng.random()
+            ws = rng.choice([" ", " ", "_", "\t", "\u00a0", "  ", ""])
+            if k < 0.3:
+                t = "begin" + ws + rng.choice(list(aliases.control))
+                if rng.random() < 0.6:
+                    t += rng.choice([" ", " ", "  ", "_"]) + rng.choice(["", "over ", "over", "over  "]) + rng.choice(lists)
+                if rng.random() < 0.15:
+                    t += rng.choice([" x", " ", "\n"])
+                return t
+            if k < 0.45:
+                return "end" + ws + rng.choice(list(aliases.control)) + rng.choice(["", "", " ", " x", "\n"])
+            t = rng.choice(list(aliases.select)) + rng.choice([" ", " ", "  ", "_", ""]) + rng.choice(lists)
+            if rng.random() < 0.5:
+                t += rng.choice([" ", " ", "  ", "_"]) + rng.choice(["or_other", "or other", "or specify other", "or", "or_others", "OR_OTHER"])
+            if rng.random() < 0.15:
+                t += rng.choice([" x", " ", "\n", "\n\n"])
+            if rng.random() < 0.1:
+                t = rng.choice([" ", "x", "Begin "]) + t
+            return t
+        cases = []
+        for _ in range(n):
+            if rng.random() < 0.8:
+                t = structured()
+            else:
+                k = rng.randint(1, 5)
+                t = ""
+                for j in range(k):
+                    t += rng.choice(words)
+                    if j < k - 1:
+                        t += rng.choice(seps)
+            e = show(t)
+            cases.append({"coq": cstr(t), "expected": e, "desc": {"type": t}, "class": {"E": "end", "B": "begin", "S": "select", "O": "other"}[e[0]], "nontrivial": e[0] != "O"})
+        return cases
+
+
 def ops(tier):
-    return [RowsOp(), c02.TreeOp(), EndToEndOp(), IsRefOp()]
+    return [RowsOp(), c02.TreeOp(), EndToEndOp(), IsRefOp(), TypeCellOp()]
 
 
 # ---- direct oracle: an independent sheet-to-tree reader ---------------------------------------------------
